@@ -257,6 +257,31 @@ def case(ctx, i, rng):
             # refusal to overwrite (or other legitimate failure) — only clause (1) applies; an unexpected failure is reported
             if not (o.exc_type == "ValueError" and "Refusing to overwrite" in (o.exc_text or "")):
                 ctx.violation("save", f"fault-free-save-failed/{o.exc_type}", dict(w))
+    # ---- a failed save leaves nothing behind for a later one: fail into `out`, then save successfully elsewhere ----
+    if multifile and subfiles and "dc_file" not in feats:  # (an Enum sub-file cannot be saved multi-file at all: known finding)
+        for fn in os.listdir(out):
+            os.remove(os.path.join(out, fn))
+        for fn, text in existing.items():
+            with open(os.path.join(out, fn), "w") as f:
+                f.write(text)
+        out2 = out + "_later"
+        shutil.rmtree(out2, ignore_errors=True)
+        os.makedirs(out2)
+        cfg = copy.deepcopy(cfg0)
+        cfg["fr"] = Fragile("boom")
+        before = snapshot(out)
+        o1, _ = do_save(p, cfg, os.path.join(out, target), True, True)
+        o2, _ = do_save(p, copy.deepcopy(cfg0), os.path.join(out2, target), True, False)
+        after = snapshot(out)
+        ctx.count("mon.failed_then_successful_save_sequences")
+        ctx.evaluation(("c18-seq", tuple(sorted(feats)), tuple(sorted(existing))))
+        if not o1.accepted and o2.accepted and after != before:
+            ctx.violation("save", "later-save-writes-into-directory-of-earlier-failed-save", dict(base_w, failed=o1.brief(), before=sorted(before), after=sorted(after), changed=sorted(k for k in after if before.get(k) != after[k])))
+        elif o1.accepted:
+            ctx.violation("save", "save-succeeded-on-unserialisable-value", dict(base_w))
+        elif not o2.accepted:
+            ctx.violation("save", f"fault-free-save-failed/{o2.exc_type}/after-a-failed-save", dict(base_w, outcome=o2.brief()))
+        shutil.rmtree(out2, ignore_errors=True)
     if i < 2:
         ctx.sample(dict(base_w, faults=[(k, short(d, 60)) for k, d in faults]))
 
